@@ -60,6 +60,10 @@ SEEDS = {
  "C18c": dict(property="C18", needs="parent started with python -m <module> (its __main__ has a __spec__.name) under the default loky start method: the init_main_module guard no longer covers the from-name branch, every worker re-runs the parent's main"),
  "C19c": dict(property="C19", needs="a worker initializer that creates a nested executor: _CURRENT_DEPTH is assigned after the initializer ran (reverse of the F14 repair)"),
  "C20c": dict(property="C20", needs="executor lifecycle ending without a blocking shutdown (shutdown(wait=False) or dropping the last reference): the weak-keyed registry of manager threads stores a bound method of its own key, the finished thread with its queues (6 semaphores, 1 fd) lives for ever"),
+ "C01c": dict(property="C01", needs="a worker terminated by a signal without a signal.Signals member (real-time signals 35..63): the exit-code formatter catches KeyError instead of ValueError, the manager thread dies before the pool is flagged broken"),
+ "C03d": dict(property="C03", needs="a worker that already ran a task reaches its idle timeout while the parent holds processes_management_lock: the stale call_item (no longer deleted) is executed again after the dropped `continue`"),
+ "C04d": dict(property="C04", needs="a result larger than the result pipe (multi-chunk write under the lock) while another worker sends a small result, which now skips the write lock: the small message lands inside the big one, the stream cannot be un-serialized, pool broken"),
+ "C05d": dict(property="C05", needs="submit + cancel + shutdown issued while the manager thread is between wait() returning and thread_wakeup.clear(): both wake-ups are swallowed, only the cancelled item remains, the manager blocks in wait() for ever (the second add_call_item_to_queue of the F18 repair removed)"),
  "C20b": dict(property="C20", needs="kill-type lifecycle + worker with descendants one of which vanishes during the kill: kill_process_tree returns early, the worker is neither killed nor joined (child, fd, semaphore accumulate)"),
 }
 DETECTED = json.load(open(os.path.join(ROOT, "seeded", "detected.json"))) if os.path.exists(os.path.join(ROOT, "seeded", "detected.json")) else {}
